@@ -193,6 +193,8 @@ class SymExec:
         k = s.get("k")
         if k == "Let":
             pat = s["pat"]
+            while pat.get("k") == "Ref" and isinstance(pat.get("p"), dict):
+                pat = pat["p"]            # `let &Complex { real, imag } = w;` destructures through the reference
             if pat.get("k") == "Bind" and s.get("init") is not None:
                 self.env[("var", pat["v"])] = self.ev(s["init"])
                 return
